@@ -45,10 +45,10 @@ Section Merges.
       + destruct (Z.eqb_spec v 1) as [->|].
         * intros [= <-]. split; [reflexivity|]. rewrite pv_int. eq32_ring.
         * destruct (d_mult ex) as [m|] eqn:Em; [|discriminate]. destruct (d_imm ex) as [i|] eqn:Ei; [|discriminate].
-          intros [= <-]. cbn. split; [reflexivity|]. rewrite !pv_int. eq32_ring.
+          cbn [andb]. intros [= <-]. cbn [d_base d_mult d_imm]. split; [reflexivity|]. rewrite ?Em, ?Ei, !pv_int. eq32_ring.
       + destruct (d_mult ex) as [m|] eqn:Em; [|discriminate]. destruct (d_imm ex) as [i|] eqn:Ei; [|discriminate].
         destruct (Z.eqb_spec m 1) as [->|]; [|discriminate]. destruct (Z.eqb_spec i 1) as [->|]; [|discriminate].
-        intros [= <-]. cbn. split; [reflexivity|]. rewrite !pv_int. eq32_ring.
+        cbn [andb]. intros [= <-]. cbn [d_base d_mult d_imm]. split; [reflexivity|]. rewrite ?Em, ?Ei, !pv_int. eq32_ring.
   Qed.
 
   Lemma merge_var_add_sound ex an d b :
@@ -75,9 +75,9 @@ Lemma extract_guard_shape ss bc ninv g :
     | None => lg_bc g = None
     end.
 Proof.
-  unfold extract_guard. destruct ss as [|s0 ss]; [discriminate|]. destruct s0 as [cc op e1 ge| | | | | | |]; try discriminate.
+  unfold extract_guard. destruct ss as [|s0 ss]; [discriminate|]. destruct s0 as [cc op e1 ge| | | | | | | | | |]; try discriminate.
   destruct e1 as [| | |iv]; try discriminate. destruct ss as [|s1 rest]; [discriminate|].
-  destruct s1 as [| | | | |c inv sis| |]; try discriminate. destruct c as [| | |cv]; try discriminate.
+  destruct s1 as [| | | | |c inv sis| | | | |]; try discriminate. destruct c as [| | |cv]; try discriminate.
   destruct (N.eqb_spec cc cv) as [<-|]; [|discriminate]. cbn [andb].
   destruct (Nat.eqb_spec (length sis) 1) as [Hl|]; [|discriminate]. cbn [andb].
   destruct (contains_break_l sis) eqn:Hcb; [|discriminate]. cbn [andb].
@@ -86,7 +86,7 @@ Proof.
   destruct (get_inv ge ninv) as [p|] eqn:Ei; [|discriminate].
   unfold contains_break_l in Hr. apply negb_false_iff in Hr.
   destruct bc as [b|].
-  - destruct sis as [|[| | | | | |e|] sis']; try discriminate. intros [= <-]. cbn in Hl.
+  - destruct sis as [|[| | | | | |e| | | |] sis']; try discriminate. intros [= <-]. cbn in Hl.
     destruct sis'; [|discriminate]. exists cc, op, ge, inv, [SBreak e], rest. cbn. repeat split; eauto.
   - intros [= <-]. exists cc, op, ge, inv, sis, rest. cbn. repeat split; auto.
 Qed.
@@ -99,7 +99,7 @@ Proof.
   unfold get_guard_operator. intros H Ha Hb.
   destruct op; try discriminate; cbn in H; injection H as <-; cbn;
     eexists; (split; [reflexivity|]); destruct inv; cbn;
-    rewrite ?negb_involutive, ?Z.ltb_antisym, ?Z.leb_antisym, ?negb_involutive; reflexivity.
+    rewrite ?Z.ltb_antisym; destruct (a <=? b), (b <=? a); reflexivity.
 Qed.
 
 Section Guard.
@@ -137,12 +137,15 @@ Lemma find_increment_sound lv coll rest ninv inc :
   exists e2, In (SBin coll PLUS (EVar lv) e2) rest /\ get_inv e2 ninv = Some inc.
 Proof.
   induction rest as [|st r IH]; cbn; [discriminate|].
-  destruct st as [x op e1 e2| | | | | | |]; try (intros H; destruct (IH H) as (e & Hi & Hg); eauto; fail).
-  destruct op; try (intros H; destruct (IH H) as (e & Hi & Hg); eauto; fail).
-  destruct e1 as [| | |e1v]; try (intros H; destruct (IH H) as (e & Hi & Hg); eauto; fail).
-  destruct (N.eqb_spec x coll) as [->|]; cbn [andb]; [|intros H; destruct (IH H) as (e & Hi & Hg); eauto].
-  destruct (N.eqb_spec e1v lv) as [->|]; [|intros H; destruct (IH H) as (e & Hi & Hg); eauto].
-  destruct (get_inv e2 ninv) as [i|] eqn:E; [|intros H; destruct (IH H) as (e & Hi & Hg); eauto].
+  assert (Hskip : find_increment lv coll r ninv = Some inc ->
+                  exists e2, (st = SBin coll PLUS (EVar lv) e2 \/ In (SBin coll PLUS (EVar lv) e2) r) /\ get_inv e2 ninv = Some inc).
+  { intros H. destruct (IH H) as (q & Hi & Hg). exists q. auto. }
+  destruct st as [x op a1 a2| | | | | | | | | |]; try exact Hskip.
+  destruct op; try exact Hskip.
+  destruct a1 as [| | |e1v]; try exact Hskip.
+  destruct (N.eqb_spec x coll) as [->|]; cbn [andb]; [|exact Hskip].
+  destruct (N.eqb_spec e1v lv) as [->|]; [|exact Hskip].
+  destruct (get_inv a2 ninv) as [i|] eqn:E; [|exact Hskip].
   intros [= <-]. eauto.
 Qed.
 
@@ -183,12 +186,13 @@ Section Derived.
   Variable ninv : set.
   Variable e0 : env.                       (* the environment at the head of the iteration *)
   Variable Bnd : list name.                (* every binder of the rest of the body *)
+  Variable BN : list name.                 (* the names of the basic induction variables *)
 
   Definition unchanged (e : env) : Prop := forall y, ~ In y Bnd -> lookup y e = lookup y e0.
 
   Definition dset_ok (s : dset) (e : env) : Prop :=
     forall x d, assoc x s = Some d ->
-      ~ In (d_base d) Bnd /\ eq32 (lookup x e) (dval w e0 d (lookup (d_base d) e0)).
+      In (d_base d) BN /\ eq32 (lookup x e) (dval w e0 d (lookup (d_base d) e0)).
 
   (* an invariant operand has the value it had at the head of the iteration *)
   Definition inv_stable : Prop := forall v, ~ In v ninv -> ~ In v Bnd.
@@ -204,7 +208,7 @@ Section Derived.
 
   Lemma dget_value s e a d :
     dset_ok s e -> dget a s = Some d ->
-    ~ In (d_base d) Bnd /\ eq32 (eval w e a) (dval w e0 d (lookup (d_base d) e0)).
+    In (d_base d) BN /\ eq32 (eval w e a) (dval w e0 d (lookup (d_base d) e0)).
   Proof.
     unfold dget. destruct a as [| | |y]; cbn; try discriminate. intros Hok Ha.
     destruct (Hok y d Ha) as [Hb Hv]. split; [assumption|]. rewrite eval_var, eq32_wrap. exact Hv.
@@ -213,7 +217,7 @@ Section Derived.
   Lemma try_merge_noswap_sound s e x op a b s' :
     inv_stable -> unchanged e -> dset_ok s e -> is_plus_or_mul op = true ->
     try_merge_noswap s ninv x op a b = Some s' ->
-    exists d, s' = (x, d) :: s /\ ~ In (d_base d) Bnd /\
+    exists d, s' = (x, d) :: s /\ In (d_base d) BN /\
               eq32 (if is_plus op then eval w e a + eval w e b else eval w e a * eval w e b)
                    (dval w e0 d (lookup (d_base d) e0)).
   Proof.
@@ -226,13 +230,13 @@ Section Derived.
       destruct (is_plus op) eqn:Ep; [|discriminate].
       destruct (dget_value _ _ _ _ Hok Eb) as [Hban Hvb].
       destruct (merge_var_add_sound w e0 _ _ _ (lookup (d_base ex) e0) Ef) as (Hb1 & Hb2 & Hv).
-      exists merged. split; [reflexivity|]. rewrite Hb1. split; [assumption|].
+      exists merged. split; [reflexivity|]. rewrite Hb1. split; [assumption|]. cbv iota.
       rewrite Hva, Hvb, Hb2. now symmetry.
     - clear Ef first. destruct (get_inv b ninv) as [p|] eqn:Eb; [|discriminate]. rewrite Hpm.
       destruct (merge_const_op ex (is_plus op) p) as [merged|] eqn:Em; [|discriminate]. intros [= <-].
       destruct (merge_const_op_sound w e0 _ _ _ _ (lookup (d_base ex) e0) Em) as (Hb1 & Hv).
       exists merged. split; [reflexivity|]. rewrite Hb1. split; [assumption|].
-      rewrite (get_inv_value e b p Hst Hu Eb), Hva. destruct (is_plus op); now symmetry.
+      rewrite (get_inv_value e b p Hst Hu Eb). revert Hv. destruct (is_plus op); intros Hv; cbv iota; rewrite Hva; now symmetry.
   Qed.
 
   Lemma try_merge_sound s e x op a b v :
@@ -246,7 +250,7 @@ Section Derived.
     { intros y d Hy. destruct (Hok y d Hy) as [Hb Hv]. split; [assumption|].
       rewrite lookup_cons_ne; [assumption|]. apply Hkeys. clear - Hy. induction s as [|[k u] r IH]; cbn in *; [discriminate|].
       destruct (N.eqb_spec y k) as [->|]; [now left | right; auto]. }
-    assert (Hadd : forall d, ~ In (d_base d) Bnd -> eq32 v (dval w e0 d (lookup (d_base d) e0)) ->
+    assert (Hadd : forall d, In (d_base d) BN -> eq32 v (dval w e0 d (lookup (d_base d) e0)) ->
                              dset_ok ((x, d) :: s) ((x, v) :: e)).
     { intros d Hb Hv y d' Hy. cbn in Hy. destruct (N.eqb_spec y x) as [->|Ne].
       - injection Hy as <-. split; [assumption|]. now rewrite lookup_cons_eq.
@@ -255,7 +259,7 @@ Section Derived.
     2:{ assert (E : try_merge_noswap s ninv x op a b = None).
         { unfold try_merge_noswap. destruct (dget a s); [|reflexivity].
           assert (Hp : is_plus op = false) by (destruct op; cbn in *; try reflexivity; discriminate).
-          rewrite Hp. destruct (dget b s); destruct (get_inv b ninv); reflexivity. }
+          rewrite Hp, Hpm. destruct (dget b s); destruct (get_inv b ninv); reflexivity. }
         rewrite E. exact Hkeep. }
     assert (Hval : forall x1 x2, eq32 v (if is_plus op then x1 + x2 else x1 * x2) ->
                    forall d, eq32 (if is_plus op then x1 + x2 else x1 * x2) (dval w e0 d (lookup (d_base d) e0)) ->
@@ -301,7 +305,7 @@ Section Derived.
         - clear - Hy. induction s as [|[k u] r0 IH0]; cbn in *; [discriminate|].
           destruct (N.eqb_spec y k) as [->|]; [now left | right; auto].
         - apply in_or_app. now left. }
-      destruct st as [x op a b| | | | | | |]; try (apply Hgen; [intros y Hy; now left | exact Hsame]).
+      destruct st as [x op a b| | | | | | | | | |]; try (apply Hgen; [intros y Hy; now left | exact Hsame]).
       rewrite exec_SBin in Es. destruct (chk m op && ovf op _ _); [discriminate|].
       destruct (rt_binop op (eval w e a) (eval w e b)) as [v|] eqn:Hrt; [|discriminate]. injection Es as <- <-.
       apply Hgen.
@@ -351,7 +355,7 @@ Proof.
                assoc (dn_name d) s = Some (mkdiv (dn_base d) (dn_mult d) (dn_imm d)) /\ In (dn_name d) (defs_l r ++ defs st) /\
                ~ In (dn_name d) colls).
   { intros H. destruct (IH H) as (A & B & C). repeat split; auto. apply in_or_app. now left. }
-  destruct st as [x op a b| | | | | | |]; auto.
+  destruct st as [x op a b| | | | | | | | | |]; auto.
   destruct (assoc x s) as [dd|] eqn:E; auto. destruct (memb x colls) eqn:M; auto.
   intros [<-|H]; auto. cbn. destruct dd. cbn. repeat split; auto.
   - apply in_or_app. right. now left.
@@ -371,16 +375,11 @@ Theorem derived_sound m w fuel ninv bs rest e0 tr e1 t :
 Proof.
   intros Hnd Hb Hinv Hex d Hd. unfold extract_derived in Hd.
   destruct (collect_derived_spec _ _ _ _ Hd) as (Ha & _ & _).
-  assert (Hok0 : dset_ok w e0 (binders_l rest) (dset_init bs) e0).
-  { intros x dd Hx. destruct (dset_init_spec _ _ _ Hx) as [-> Hi]. cbn. split.
-    - apply in_map_iff in Hi. destruct Hi as (b & <- & Hbi). now apply Hb.
-    - unfold dval. cbn. rewrite !pv_int. eq32_ring. }
-  destruct (dset_run_sound m w fuel ninv e0 (binders_l rest) rest (dset_init bs) e0 tr e1 t) as [Hok _]; auto.
+  assert (Hok0 : dset_ok w e0 (map gc_name bs) (dset_init bs) e0).
+  { intros x dd Hx. destruct (dset_init_spec _ _ _ Hx) as [-> Hi]. cbn [d_base]. split; [assumption|].
+    unfold dval. cbn [d_mult d_imm d_base]. rewrite !pv_int. eq32_ring. }
+  destruct (dset_run_sound m w fuel ninv e0 (binders_l rest) (map gc_name bs) rest (dset_init bs) e0 tr e1 t) as [Hok _]; auto.
   - intros y _. reflexivity.
   - intros y Hy. apply dset_init_keys in Hy. apply in_map_iff in Hy. destruct Hy as (b & <- & Hbi). now apply Hb.
-  - destruct (Hok _ _ Ha) as [_ Hv]. cbn in Hv. split; [|exact Hv].
-    (* the base is a basic induction variable: bases are only ever copied from the initial set *)
-    clear - Ha. revert Ha. generalize (mkdiv (dn_base d) (dn_mult d) (dn_imm d)). generalize (dn_name d).
-    intros x dd. change (dn_base d) with (d_base (mkdiv (dn_base d) (dn_mult d) (dn_imm d))).
-    admit.
-Admitted.
+  - destruct (Hok _ _ Ha) as [Hb' Hv]. cbn in Hb', Hv. split; assumption.
+Qed.
